@@ -36,6 +36,9 @@ type Env struct {
 	W    *bankWrap
 	sctx sdk.Context
 	now  time.Time
+
+	savedCalls []model.Call
+	savedN     int
 }
 
 const Authority = "cosmos10d07y265gmmuvt4z0w9aw880jnsr700j6zn9kn"
@@ -198,4 +201,16 @@ func SameEvents(a *Env, a0, a1 int, b *Env, b0, b1 int) bool {
 		}
 	}
 	return true
+}
+
+// Branch starts, and Discard throws away, a branched execution (a cache context that is never written back).
+func (e *Env) Branch() {
+	cctx, _ := e.sctx.CacheContext()
+	e.Ctx = cctx
+	e.savedCalls, e.savedN = append([]model.Call(nil), e.W.Calls...), e.W.NCalls
+}
+
+func (e *Env) Discard() {
+	e.Ctx = e.sctx
+	e.W.Calls, e.W.NCalls = e.savedCalls, e.savedN
 }
